@@ -465,8 +465,16 @@ impl<'a> World<'a> {
                         let via_runner = op["undo_runner"].as_bool().unwrap_or(false);
                         let (ok, rewound) = self.do_rewind(run, idx, via_runner, &after);
                         Self::bump(run, "undo-checked");
-                        if !ok {
-                            run.viol.push((format!("{name}: the rewind to the call's own auto checkpoint failed; the edit ({}) cannot be undone", show_list(&changed)), "edit_not_undone_by_auto_checkpoint".into()));
+                        if !ok && changed.is_empty() {
+                            // the call changed no file (refused / failed and rolled back): there is no edit to undo, and the
+                            // failed rewind has left the workspace as it was (checked in do_rewind)
+                            Self::bump(run, "undo-nothing-to-undo-rewind-failed");
+                        } else if !ok {
+                            // KNOWN FINDING S10j, recognised executably: the call itself put a DIRECTORY where a file it
+                            // covers (a file before the call) stood - apply_patch `Delete File: a` + `Add File: a/x`
+                            let dir_at_covered_file = self.cks[idx].expect.iter().any(|(c, was)| was.is_some() && after.get(c) == Some(&Node::Dir));
+                            let class = if name == "apply_patch" && dir_at_covered_file { "auto_checkpointed_patch_put_directory_at_covered_file" } else { "edit_not_undone_by_auto_checkpoint" };
+                            run.viol.push((format!("{name}: the rewind to the call's own auto checkpoint failed; the edit ({}) cannot be undone", show_list(&changed)), class.into()));
                         } else {
                             let fb = files_of(&before);
                             let fr = files_of(&rewound);
@@ -819,6 +827,15 @@ fn gen_op(r: &mut Rng, root: &std::path::Path, n_cks: usize, step: u64) -> Value
                 ops.push(patch_lines(if mv { 3 } else { 2 }, &deco(r, &f), &first, &deco(r, dest), step));
             }
             _ => ops.push(patch_lines(0, "added2.txt", "", "", step)),
+        }
+    }
+    if !files.is_empty() && r.chance(1, 12) {
+        // one patch that deletes a file and adds one below its name (the file becomes a directory), or the other way round
+        let f = r.pick(&files).clone();
+        if r.chance(2, 3) {
+            ops = vec![patch_lines(1, &f, "", "", step), patch_lines(0, &format!("{f}/below.txt"), "", "", step)];
+        } else {
+            ops = vec![patch_lines(0, &format!("{f}/below.txt"), "", "", step), patch_lines(1, &f, "", "", step)];
         }
     }
     json!({"op": "tool", "name": "apply_patch", "args": patch_op(ops), "undo": undo, "undo_runner": undo_runner})
